@@ -208,6 +208,7 @@ def rich_impl(rng, trait_path, ty):
     items += rng.sample(IMPL_ITEMS_OTHER, rng.randint(0, 3))
     rng.shuffle(items)
     attrs = rng.sample(["/// impl docs", "#[allow(dead_code)]", "#[cfg(all())]", "#[::async_trait::async_trait]",
-                        "#[async_trait]", "#[async_trait(?Send)]"], rng.randint(0, 2))
+                        "#[async_trait]", "#[async_trait(?Send)]", "#[mockall::automock]", "#[automock]", "#[::vattr::mark(on_impl)]",
+                        "#[doc(hidden)]", "#[rustfmt::skip]"], rng.randint(0, 3))
     uns = rng.choice(["", "", "", "unsafe "])
     return "\n".join(attrs + ["%simpl %s for %s {" % (uns, trait_path, ty)] + ["    " + it.replace("\n", "\n    ") for it in items] + ["}"])
